@@ -13,7 +13,7 @@ THEOREMS = ["Econf.C04_read_total", "Econf.C04_line_total", "Econf.C04_split_los
             "Leaf.check_delim_exec", "Leaf.hashstring_exec",
             "Leaf.addbrackets_exec", "Leaf.replace_str_exec", "Leaf.C_replace_str", "Leaf.replaceSpec_length",
             "LeafKf.first_entry_exec", "LeafKf.has_group_exec", "LeafKf.first_definition_exec",
-            "LeafKf.find_key_exec", "LeafKf.getFromGroupList_exec", "LeafKf.setGroupList_new", "LeafKf.setGroupList_found", "LeafKf.cpy_file_entry_exec"]
+            "LeafKf.find_key_exec", "LeafKf.getFromGroupList_exec", "LeafKf.setGroupList_new", "LeafKf.setGroupList_found", "LeafKf.cpy_file_entry_exec", "LeafKf.C_fe_append"]
 # the string helpers whose C source is translated to MiniC on every run (memory safety for every input is a theorem about the translation)
 LEAF_FNS = ["stripbrackets", "addbrackets", "toLowerCase", "hashstring", "ltrim", "rtrim", "trim", "check_delim", "replace_str",
             "has_group", "first_entry", "first_definition", "getFromGroupList", "find_key",
